@@ -23,7 +23,7 @@ def run(ctx):
     # (a) IN side summary (C11 holds the detailed obligations)
     tm = ctx.ir('USBInTransferManager', 'usb2.transfer', max_packet_size=64)
     f = ctx.the_fsm(tm)
-    writers = [a for a in tm.assigns if a.lhs.canon() in ('self.data_pid', 'self.data_pid[0:1]')]
+    writers = [a for a in q.merged_drivers(tm, 'self.data_pid') if a.lhs.canon() in ('self.data_pid', 'self.data_pid[0:1]')]
     ctx.need(len(writers) >= 5, 'data_pid writers')
     ack_state = {x.state[1] for x in list(f.edges) + tm.assigns if x.state and q.has(x, 'self.handshakes_in.ack')}
     ctx.need(len(ack_state) == 1, 'ack-wait state')
